@@ -74,8 +74,9 @@ func famqSystem(c *Ctx) {
 			add("inread")
 		}
 	}
-	if c.wants("C21", "C22") {
-		// a slot of the full semaphore handed to a parked worker just as its query ends
+	if c.wants("C20", "C21", "C22") {
+		// a slot of the full semaphore handed to a parked worker just as its query ends; Close while the
+		// semaphore stays full (the parked workers never get a slot)
 		for i := 0; i < c.pick(10, 100); i++ {
 			add("handoff")
 		}
